@@ -128,7 +128,7 @@ def gen_wellformed(rng, w):
             units += [92, e]; cps.append(SIMPLE[e])
         else:
             cp = rand_scalar(rng)
-            units += esc_units(cp, rng); cps.append(cp)
+            units += esc_units(cp, rng, bigu=False); cps.append(cp)
     return units, cps
 
 
@@ -182,6 +182,11 @@ def run(ctx):
         for m in MODES:
             for lo, hi in scalar_batches():
                 lines.append(("uni_enc %s %d %d" % (w, lo, hi)) if m == "d" else ("uni_esc %s %s %d %d" % (w, m, lo, hi)))
+    nlines_oracle = len(lines)
+    # capital \\U is accepted by the routine but is not RFC 8259: correspondence only, no oracle
+    for w in WIDTHS:
+        for lo, hi in list(scalar_batches())[:: (8 if not ctx.thorough else 1)]:
+            lines.append("uni_esc %s U %d %d" % (w, lo, hi))
     impl, model = both(lines)
     bad = ctx.correspond("all-scalars(3 widths x direct/lower/upper/in-context), %d code points per line" % BATCH, lines, impl, model)
     ncp = sum(hi - lo for lo, hi in scalar_batches())
@@ -191,7 +196,7 @@ def run(ctx):
         ctx.notes.append("first disagreement in '%s': cp=0x%X impl=%s model=%s" % (lines[i], cp, a, b))
     # S3 (a): the Lean spec decoders on what the C++ produced must give back cp (and the consumed length)
     olines, oidx = [], []
-    for i, l in enumerate(lines):
+    for i, l in enumerate(lines[:nlines_oracle]):
         if impl[i].startswith("FAULT") or impl[i].startswith("bad"):
             continue
         t = l.split(" ")
@@ -274,7 +279,7 @@ def run(ctx):
                 for sep in ([92, 117], [92, 85], [120, 121], [92, 110], [34, 34]):
                     s = [97] + [92, 117] + hexs(hi, hi & 1) + sep + hexs(lo, lo & 2) + [98, 34]
                     exp = None
-                    if sep[0] == 92 and sep[1] in (117, 85) and 0xD800 <= hi <= 0xDBFF and 0xDC00 <= lo <= 0xDFFF:
+                    if sep == [92, 117] and 0xD800 <= hi <= 0xDBFF and 0xDC00 <= lo <= 0xDFFF:
                         exp = ([97, 0x10000 + ((hi - 0xD800) << 10) + (lo - 0xDC00), 98], len(s))
                     add(w, [], s, exp)
                     if sep == [92, 117]:
@@ -364,7 +369,7 @@ def run(ctx):
 
 
 FINISH = dict(level="proof",
-              rule="all 1,112,064 scalar values x widths {1,2,4} x {direct ToUTF, \\uxxxx lower hex + quote, \\UXXXX upper hex ended by length, "
+              rule="all 1,112,064 scalar values x widths {1,2,4} x {direct ToUTF, \\uxxxx lower hex + quote, \\uXXXX upper hex ended by length, "
                    "inside a longer string}; all surrogates and sampled values up to 2^32-1 as direct inputs; UnEscape on every string of "
                    "length <= 5 (quick) / 6 (thorough) over {\\ u \" D 8 0 n LF}, every escape letter 0-127, 10x10 surrogate boundary pairs x 5 "
                    "separators with every truncation, random well-formed bodies with known denotation (1 in 12 truncated everywhere), random "
